@@ -77,8 +77,10 @@ static const struct cfg *cfgs(int thorough, int *n)
     *n = (int)(sizeof quick_cfgs / sizeof quick_cfgs[0]); return quick_cfgs;
 }
 static int w_nconfigs(int thorough) { int n; cfgs(thorough, &n); return n; }
+static int USE_MACRO;      /* odd configurations build the tables with CSTL_HASH_INITIALIZER instead of cstl_hash_init() */
 static void w_setup(int cfg, int thorough)
 {
+    USE_MACRO = cfg & 1;
     int n, i, j, k, f; char kb[64] = "", cb[64] = "";
     const struct cfg *c = &cfgs(thorough, &n)[cfg];
     N = c->n; NCOUNTS = c->nc; NF = c->nf;
@@ -118,7 +120,11 @@ static void w_init(void)
     for (i = 0; i < N; i++) { pool[i].idx = i; pool[i].pad = 0x1111; pool[i].tail = 0x2222; pool[i].pad2 = 0x3333; pool[i].hn.key = (size_t)keys[i]; pool[i].hn.next = NULL; pool[i].hn2.key = (size_t)keys[i]; pool[i].hn2.next = NULL; m_member[i] = 0; }
     m_count = 0; m_resized = 0; m_nreq = 0; m_freq = F_MUL; m_forced_settled = 1; cur = 0; m_budget = -1; m_since = 0;
     m_off[0] = offsetof(struct elem, hn); m_off[1] = offsetof(struct elem, hn2);
-    for (t = 0; t < 2; t++) { memset(&TB[t], 0xA5, sizeof TB[t]); cstl_hash_init(&TB[t], m_off[t]); }
+    for (t = 0; t < 2; t++) {
+        memset(&TB[t], 0xA5, sizeof TB[t]);
+        if (!USE_MACRO) cstl_hash_init(&TB[t], m_off[t]);
+        else if (t) TB[t] = (struct cstl_hash)CSTL_HASH_INITIALIZER(struct elem, hn2); else TB[t] = (struct cstl_hash)CSTL_HASH_INITIALIZER(struct elem, hn);
+    }
 }
 #define T (&TB[cur])
 
